@@ -179,6 +179,97 @@ fn funded_instantiate_queries_on_entry() {
     }
 }
 
+/// found missing by seeds C09f / C10f: answers computed INSIDE a transaction that is then rolled back
+/// (as a whole, or a caught sub-message) must leave no trace in later answers — a keeper that memoizes
+/// what it answered survives the rollback of the storage.  Three shapes, then every bank query again.
+pub fn rolled_back_queries() {
+    let mut w = world(2);
+    let u0 = sym_u128("bal_u", 0, BAL);
+    let ua = w.user.clone();
+    w.app.init_modules(|router, _, storage| router.bank.init_balance(storage, &ua, vec![coin(u0, "x")]).unwrap());
+    let (k0, k1, user) = (w.ks[0].clone(), w.ks[1].clone(), w.user.clone());
+    let f = sym_u128("f", 1, BAL);
+    let total0 = add(add(w.bal[0], w.bal[1]), v(u0));
+    let shape = choose(3);
+    let before = snapshot(&w.app);
+    sc::trace_clear();
+    let r = match shape {
+        // the callee is paid, looks at its own balance and fails: everything is rolled back
+        0 => catch(|| {
+            w.app.execute_contract(user.clone(), k0.clone(), &Script::new().then(Step::QueryBalance { tag: "seen".into(), addr: "@self".into(), denom: "x".into() }).fail("no"), &[coin(f, "x")])
+        }),
+        // a burn, the supply read afterwards (in the reply), then failure
+        1 => catch(|| {
+            let s = Script::new().sub(
+                BankMsg::Burn { amount: vec![coin(f, "x")] },
+                ReplyOn::Success,
+                1,
+                Some(Script::new().then(Step::QuerySupply { tag: "seen".into(), denom: "x".into() }).fail("no")),
+            );
+            w.app.execute_contract(user.clone(), k0.clone(), &s, &[])
+        }),
+        // K0 pays K1, K1 fails, K0 catches the failure and looks at K1's balance; the transaction succeeds
+        _ => catch(|| {
+            let inner = Script::new().then(Step::QueryBalance { tag: "inner".into(), addr: "@self".into(), denom: "x".into() }).fail("no");
+            let s = Script::new().sub(
+                WasmMsg::Execute { contract_addr: k1.to_string(), msg: inner.bin(), funds: vec![coin(f, "x")] },
+                ReplyOn::Error,
+                1,
+                Some(Script::new().then(Step::QueryBalance { tag: "seen".into(), addr: k1.to_string(), denom: "x".into() })),
+            );
+            w.app.execute_contract(user.clone(), k0.clone(), &s, &[])
+        }),
+    };
+    let r = match r {
+        Ok(r) => r,
+        Err(p) => {
+            failure("no_panic", "panic", p);
+            return;
+        }
+    };
+    let trace = sc::trace_take();
+    if shape < 2 {
+        check_native("failing_transaction_fails", r.is_err(), || "ok".into());
+        check_unchanged("failed_transaction_leaves_storage_unchanged", &w.app, &before);
+    } else if decide(le(v(f), w.bal[0])) {
+        check_native("caught_failure_is_absorbed", r.is_ok(), || format!("{:?}", r.as_ref().err().map(|e| e.to_string())));
+        if let Some(b) = num(&trace, "seen") {
+            check("query_after_a_caught_failure_sees_none_of_its_effects", eq(v(b), w.bal[1]));
+        }
+    }
+    witness("rolled_back");
+    // afterwards every bank query answers from the state that was kept
+    check("app_query_sees_committed_state", eq(v(balance(&w.app, &k0, "x")), w.bal[0]));
+    check("app_query_sees_committed_state", eq(v(balance(&w.app, &k1, "x")), w.bal[1]));
+    check("app_query_sees_committed_state", eq(v(balance(&w.app, &user, "x")), v(u0)));
+    match w.app.wrap().query_supply("x") {
+        Ok(c) => {
+            check("supply_query_sees_committed_state", eq(v(c.amount), total0));
+        }
+        Err(e) => {
+            check_native("supply_query_answers", false, || e.to_string());
+        }
+    }
+    // ... also when asked from inside the next transaction
+    sc::trace_clear();
+    let look = Script::new()
+        .then(Step::QueryBalance { tag: "k0".into(), addr: k0.to_string(), denom: "x".into() })
+        .then(Step::QueryBalance { tag: "k1".into(), addr: k1.to_string(), denom: "x".into() })
+        .then(Step::QuerySupply { tag: "supply".into(), denom: "x".into() });
+    if w.app.execute_contract(user.clone(), k1.clone(), &look, &[]).is_ok() {
+        let t2 = sc::trace_take();
+        if let Some(b) = num(&t2, "k0") {
+            check("next_transaction_sees_committed_state", eq(v(b), w.bal[0]));
+        }
+        if let Some(b) = num(&t2, "k1") {
+            check("next_transaction_sees_committed_state", eq(v(b), w.bal[1]));
+        }
+        if let Some(b) = num(&t2, "supply") {
+            check("next_transaction_sees_committed_state", eq(v(b), total0));
+        }
+    }
+}
+
 /// set / remove of a key that exists in committed state by two completed sibling sub-messages, then a
 /// query from the reply handler (the overlay's deletions must hide the committed value)
 fn overwrite_then_remove() {
@@ -312,6 +403,7 @@ pub fn scenarios(_tier: &str) -> Vec<Scenario> {
         Scenario::new("queries_inside_a_transaction", &["tx_ok", "a_ok", "a_failed_and_caught"], inside_tx),
         Scenario::new("overlay_visible_through_queries", &["tx_ok"], overwrite_then_remove),
         Scenario::new("funded_instantiate_queries_on_entry", &["inst_ok"], funded_instantiate_queries_on_entry),
+        Scenario::new("answers_given_inside_a_rolled_back_transaction_leave_no_trace", &["rolled_back"], rolled_back_queries),
         Scenario::new("every_query_kind_is_pure", &["all_queries"], purity),
     ]
 }
